@@ -1,6 +1,7 @@
 import SamVerif.Props.C12
+import SamVerif.Props.C12b
 /-! Axiom audit of every C12 property theorem (parsed by vlib/common.py). -/
-open SamVerif.ErrorSet
+open SamVerif.ErrorSet SamVerif.Layout
 #print axioms errorset_merge_ac
 #print axioms errorset_merge_assoc
 #print axioms errorset_extensional
@@ -15,3 +16,6 @@ open SamVerif.ErrorSet
 #print axioms diagnostics_ids_partial
 #print axioms ctx_layout_perm_invariant
 #print axioms numbering_is_renaming
+#print axioms layout_order_independent_counterexample
+#print axioms layout_loop_partial
+#print axioms layout_loop_counterexample
